@@ -634,6 +634,7 @@ def run_shard(spec, rec):
     OT.KEYS.rsa(0)
     try:
         mode = spec["mode"]
+        rec.count("reference_selftest_assertions", AO.selftest() + (OT.selftest() if mode == "special" else 0))
         if mode == "random":
             for i in range(spec["n"]):
                 rnd = gen.rnd_for(spec["seed"], PROPERTY, spec["shard"], i)
